@@ -42,3 +42,52 @@ func Harness_C02_old_entries_ignored() {
 	v.Assert("C02/old/no-notifications", len(rec.Events) == 0)
 	v.Cover("old-entries")
 }
+
+// Harness_C02_forgotten_then_delta: a delta that answers a digest the
+// observer sent BEFORE it forgot the owner (the owner was left or unreachable
+// and its expiry passed while the answer was in flight - datagrams can be
+// delayed arbitrarily). The answer only carries the entries above the version
+// the digest named. Whatever the observer reports about the owner afterwards
+// must still be a consistent view (or nothing).
+func Harness_C02_forgotten_then_delta() {
+	K := v.Param("K", 1)
+	os, o, oc := vOwnerState("o", K, nil)
+	obs := vNewState("obs", nil)
+	w := vViewOf("w", obs, o, oc, K)
+	dg := obs.Digest()
+	// the sender: the owner itself or a relay with its own consistent view
+	sender := os
+	if v.Choose("via-relay", 2) == 1 {
+		sender = vNewState("r", nil)
+		vViewOf("rv", sender, o, oc, K)
+		v.Cover("via-relay")
+	}
+	d := sender.Delta(dg, false)
+	// meanwhile the observer forgets the owner
+	if !w.Left {
+		w.Unreachable = true
+	}
+	w.Expiry = v.Time("expiry")
+	sweep := v.Time("sweep")
+	obs.RemoveExpiredAt(sweep)
+	_, still := obs.nodes["o"]
+	v.Assume(!still)
+	// datagram path (packetListener.delta)
+	obs.ApplyKnownDelta(d)
+	w2, known := obs.nodes["o"]
+	if !known {
+		v.Cover("stays-forgotten")
+		// it is discovered again from a digest (version 0) and then receives a
+		// full state, which is a consistent view again
+		obs.ApplyDigest(sender.Digest())
+		if w3, again := obs.nodes["o"]; again {
+			v.Assert("C02/forgotten/rediscovered-at-version-0", w3.Version == 0 && len(w3.Entries) == 0)
+			obs.ApplyKnownDelta(sender.Delta(obs.Digest(), false))
+			vAssertInv("C02/forgotten/after-rediscovery", o, oc, obs.nodes["o"], K)
+			v.Cover("rediscovered")
+		}
+		return
+	}
+	v.Cover("recreated")
+	vAssertInv("C02/forgotten", o, oc, w2, K)
+}
